@@ -11,11 +11,15 @@
      stage_full s u c d ps the expected entries of one stage handed datum d: participant j
                            finds d edited by participants 0..j-1 (a fold), on a context
                            the earlier ones have written to
-     cut                   everything stops at the first hook that raises
+     cut                   everything stops at the first hook that raises; the exception in
+                           flight is (site, plugin, URL, class) of that hook call
+     xcls                  the class of the exception a hook raises (Exception, ValueError,
+                           suds.WebFault, suds.transport.TransportError and a subclass,
+                           SAXParseException, a BaseException subclass, ...)
      msg_stages ps b       the five message stages, each handed what the previous left
      reach v               how many of them an invocation goes through (2 without a reply,
                            4 for a fault, 5 for a normal reply, ...) *)
-From SV Require Import Lib.Base C16.Model C16.Proofs C16.DocProofs C16.MsgProofs C16.FlowProofs.
+From SV Require Import Lib.Base C16.Model C16.Proofs C16.DocProofs C16.MsgProofs C16.FlowProofs C16.ExcProofs.
 From Coq Require Import Sorted.
 
 (* --- plugin.py: filter by kind, registration order, non-callables skipped, first
@@ -66,7 +70,7 @@ Print Assumptions later_stages_see_edits.
 (* ... and within a stage the j-th participant finds the edits of participants 0..j-1 *)
 Theorem stage_entry_view : forall s url l ps j,
   s <> SU -> s <> SI -> j < length (parts s ps) ->
-  nth j (stage_full s url true (Some l) ps) (mkE s 0 url None [], false) =
+  nth j (stage_full s url true (Some l) ps) (mkE s 0 url None [], None) =
   (mkE s (q_idx (nth j (parts s ps) dq)) url
        (Some (l ++ marks s (firstn j (parts s ps))))
        (map q_idx (firstn j (parts s ps))),
@@ -104,18 +108,53 @@ Theorem no_unmarshalled_for_fault : forall ps v e,
 Proof. exact no_unmarshalled_for_fault_l. Qed.
 Print Assumptions no_unmarshalled_for_fault.
 
-(* the first raising hook among the stages gone through: the caller gets its exception and
-   it is the last hook that ran *)
-Theorem hook_exception_propagates : forall ps v s i,
-  snd (cut (concat (firstn (reach v) (msg_stages ps (i_body v))))) = Some (s, i) ->
-  (o_res (invoke ps v) = RHookExc s i \/ o_res2 (invoke ps v) = RHookExc s i) /\
-  exists e, last (o_log (invoke ps v)) e = e /\ e_site e = s /\ e_idx e = i.
+(* the first raising hook among the stages gone through: whatever the class of its
+   exception (h ranges over every hook call and every class), the caller gets that
+   exception and it is the last hook that ran - no later hook runs, none runs twice
+   (hook_log).  The only place where suds looks at the class of what comes out of an
+   invocation is the service call's `except WebFault` with faults off, which hands the same
+   object back as (500, exception). *)
+Theorem hook_exception_propagates : forall ps v h,
+  snd (cut (concat (firstn (reach v) (msg_stages ps (i_body v))))) = Some h ->
+  let r := RHookExc (x_site h) (x_idx h) (x_cls h) in
+  ((o_res (invoke ps v) = r \/ o_res2 (invoke ps v) = r) \/
+   (is_webfault (x_cls h) = true /\ i_faults v = false /\
+    o_res (invoke ps v) = RHookRet (x_site h) (x_idx h) (x_cls h))) /\
+  (is_webfault (x_cls h) && negb (i_faults v) = false ->
+   o_res (invoke ps v) = r \/ o_res2 (invoke ps v) = r) /\
+  exists e, last (o_log (invoke ps v)) e = e /\ e_site e = x_site h /\ e_idx e = x_idx h.
 Proof. exact hook_exception_propagates_l. Qed.
 Print Assumptions hook_exception_propagates.
 
-Theorem raising_hook_reaches_caller : forall ps v x,
-  In x (concat (firstn (reach v) (msg_stages ps (i_body v)))) -> snd x = true ->
-  exists s i, o_res (invoke ps v) = RHookExc s i \/ o_res2 (invoke ps v) = RHookExc s i.
+(* by which door: out of the service call (through its WebFault handler, `proxy`) when a
+   marshalled / sending hook raised or the reply is processed by send(); out of
+   RequestContext.process_reply, untouched, otherwise *)
+Theorem exception_delivery : forall ps v h,
+  snd (cut (concat (firstn (reach v) (msg_stages ps (i_body v))))) = Some h ->
+  (is_early (Some h) = true \/ i_via v = Direct ->
+     o_res (invoke ps v) = proxy v (raised h) /\ o_res2 (invoke ps v) = RNotRun) /\
+  (is_early (Some h) = false -> i_via v <> Direct -> o_res2 (invoke ps v) = raised h).
+Proof. exact exception_delivery_l. Qed.
+Print Assumptions exception_delivery.
+
+(* the class of the exceptions plays no role: map the classes the hooks raise through any
+   f : xcls -> xcls and the same hooks run, each handed the same data, the same bytes reach
+   the transport, and the exception in flight is the same hook call's *)
+Theorem exception_class_irrelevant : forall f ps v,
+  o_log (invoke (map (reclass f) ps) v) = o_log (invoke ps v) /\
+  o_sent (invoke (map (reclass f) ps) v) = o_sent (invoke ps v) /\
+  snd (cut (concat (firstn (reach v) (msg_stages (map (reclass f) ps) (i_body v))))) =
+  reclass_exc f (snd (cut (concat (firstn (reach v) (msg_stages ps (i_body v)))))).
+Proof. exact exception_class_irrelevant_l. Qed.
+Print Assumptions exception_class_irrelevant.
+
+Theorem raising_hook_reaches_caller : forall ps v y x,
+  In y (concat (firstn (reach v) (msg_stages ps (i_body v)))) -> snd y = Some x ->
+  exists h, (o_res (invoke ps v) = raised h \/ o_res2 (invoke ps v) = raised h \/
+             o_res (invoke ps v) = RHookRet (x_site h) (x_idx h) (x_cls h)) /\
+            exists y', In y' (concat (firstn (reach v) (msg_stages ps (i_body v)))) /\
+                       e_site (fst y') = x_site h /\ e_idx (fst y') = x_idx h /\
+                       snd y' = Some (x_cls h).
 Proof. exact raising_hook_reaches_caller_l. Qed.
 Print Assumptions raising_hook_reaches_caller.
 
@@ -128,14 +167,37 @@ Print Assumptions no_spurious_hook_exception.
 (* --- document and init hooks: loaded once per fetched document, parsed once per opened
        document, each with its URL (doc_stages), then the init hook; the first raising hook
        ends the construction with its exception --- *)
-Theorem document_hooks : forall ps caching pre urls,
-  let '(l, os, r) := construct ps caching pre urls in
+Theorem document_hooks : forall ps caching pre xsd urls,
+  let '(l, os, r) := construct ps caching pre xsd urls in
   let c := cut (concat (doc_stages ps pre os) ++ init_stage ps pre os) in
   l = fst c /\
-  r = match snd c with Some (s, i) => CHookExc s i | None => COk end /\
+  r = match snd c with Some h => ctor_fail xsd h | None => COk end /\
   (snd c = None -> map fst os = urls).
 Proof. exact construct_closed_l. Qed.
 Print Assumptions document_hooks.
+
+(* the exception of the first raising document / init hook, of whatever class, is what the
+   caller of Client() gets ...
+
+   FULL STATEMENT (no guard) is false of suds:  suds/xsd/sxbasic.py Import/Include.__download
+   open the document inside `try: ... except TransportError: raise Exception(msg)`, so a
+   TransportError raised by a loaded / parsed hook of an imported or included schema is
+   answered with a new Exception("import schema (..) at (..), failed") chained to it
+   (document_hook_exception_refuted).  Whether that is a defect is debatable - a plugin that
+   raises the transport's own exception from a download asks to be treated as a failed
+   download - so the specification accepts both outcomes there and nowhere else. *)
+Theorem document_hook_exception_propagates_partial : forall ps caching pre xsd urls h,
+  let '(l, os, r) := construct ps caching pre xsd urls in
+  snd (cut (concat (doc_stages ps pre os) ++ init_stage ps pre os)) = Some h ->
+  is_transport (x_cls h) && mem_N (x_url h) xsd = false ->
+  r = CHookExc (x_site h) (x_idx h) (x_cls h).
+Proof. exact document_hook_exception_propagates_l. Qed.
+Print Assumptions document_hook_exception_propagates_partial.
+
+Theorem construct_class_irrelevant : forall f ps caching pre xsd urls,
+  fst (construct (map (reclass f) ps) caching pre xsd urls) = fst (construct ps caching pre xsd urls).
+Proof. exact construct_class_irrelevant_l. Qed.
+Print Assumptions construct_class_irrelevant.
 
 (* --- the executable specification the harness applies to the implementation's outputs
        holds of the model, whatever the plugin list --- *)
@@ -143,8 +205,8 @@ Theorem model_meets_spec : forall ps v, spec_inv ps v (invoke ps v) = true.
 Proof. exact model_meets_spec_l. Qed.
 Print Assumptions model_meets_spec.
 
-Theorem construct_meets_spec : forall ps caching pre urls,
-  let '(l, os, r) := construct ps caching pre urls in spec_ctor ps pre os l r = true.
+Theorem construct_meets_spec : forall ps caching pre xsd urls,
+  let '(l, os, r) := construct ps caching pre xsd urls in spec_ctor ps pre xsd os l r = true.
 Proof. exact construct_meets_spec_l. Qed.
 Print Assumptions construct_meets_spec.
 
@@ -152,17 +214,17 @@ Print Assumptions construct_meets_spec.
 (* non-vacuity                                                         *)
 (* ------------------------------------------------------------------ *)
 
-Definition ex_msg (raises_received : bool) : plugin :=
-  Plug false false true Inherit Inherit (Fn true false) (Fn true false) (Fn true false)
-       (Fn true raises_received) (Fn true false).
-Definition ex_doc : plugin :=
-  Plug false true false Inherit (Fn true false) (Fn true false) (Fn true false) Inherit Inherit Inherit.
+Definition ex_msg (raises_received : option xcls) : plugin :=
+  Plug false false true Inherit Inherit (Fn true None) (Fn true None) (Fn true None)
+       (Fn true raises_received) (Fn true None).
+Definition ex_doc (raises_loaded : option xcls) : plugin :=
+  Plug false true false Inherit (Fn true raises_loaded) (Fn true None) (Fn true None) Inherit Inherit Inherit.
 Definition ex_inv (st : N) (b : body) : inv := Inv Direct false true false st b.
 
 (* a normal reply goes through all five stages; the value carries r, p, u edits of both
    message plugins in registration order; the document plugin's marshalled hook never runs *)
 Example normal_nonvacuous :
-  let ps := [ex_msg false; ex_doc; ex_msg false] in
+  let ps := [ex_msg None; ex_doc None; ex_msg None] in
   snd (cut (concat (firstn (reach (ex_inv 200 BNormal)) (msg_stages ps BNormal)))) = None /\
   map (fun e => (e_site e, e_idx e)) (o_log (invoke ps (ex_inv 200 BNormal))) =
     [(SM,0);(SM,2);(SS,0);(SS,2);(SR,0);(SR,2);(SP,0);(SP,2);(SU,0);(SU,2)] /\
@@ -171,22 +233,63 @@ Example normal_nonvacuous :
 Proof. vm_compute. repeat split; reflexivity. Qed.
 
 Example fault_and_no_reply_nonvacuous :
-  let ps := [ex_msg false; ex_msg false] in
+  let ps := [ex_msg None; ex_msg None] in
   is_fault (ex_inv 500 BFault) = true /\
   o_res (invoke ps (ex_inv 500 BFault)) = RFault [(SR,0);(SR,1);(SP,0);(SP,1)] /\
   no_reply (ex_inv 204 BEmpty) = true /\
   length (o_log (invoke ps (ex_inv 204 BEmpty))) = 4.
 Proof. vm_compute. repeat split; reflexivity. Qed.
 
-Example raise_nonvacuous :
-  let ps := [ex_msg false; ex_msg true; ex_msg false] in
-  snd (cut (concat (firstn (reach (ex_inv 200 BNormal)) (msg_stages ps BNormal)))) = Some (SR, 1) /\
-  o_res (invoke ps (ex_inv 200 BNormal)) = RHookExc SR 1 /\
+(* a received hook raising - for every class, the transport's own included - ends the
+   invocation there: 8 hook calls, the caller gets that exception *)
+Example raise_nonvacuous : forall x,
+  let ps := [ex_msg None; ex_msg (Some x); ex_msg None] in
+  snd (cut (concat (firstn (reach (ex_inv 200 BNormal)) (msg_stages ps BNormal)))) = Some (HX SR 1 0 x) /\
+  o_res (invoke ps (ex_inv 200 BNormal)) = RHookExc SR 1 x /\
   length (o_log (invoke ps (ex_inv 200 BNormal))) = 8.
+Proof. intro x. destruct x; vm_compute; repeat split; reflexivity. Qed.
+
+(* the WebFault handler of the service call with faults off *)
+Example webfault_faults_off_nonvacuous :
+  let ps := [ex_msg (Some XWebFault)] in
+  o_res (invoke ps (Inv Direct false false false 200 BNormal)) = RHookRet SR 0 XWebFault /\
+  o_res2 (invoke ps (Inv (NoSend true) false false false 200 BNormal)) = RHookExc SR 0 XWebFault.
+Proof. vm_compute. split; reflexivity. Qed.
+
+(* a send() whose TransportError handler also covered the reply processing would run the
+   reply hooks a second time and hand the caller something else: the specification
+   rejects that run, and accepts the model's *)
+Example wide_handler_is_rejected :
+  let ps := [ex_msg None; ex_msg (Some XTransport)] in
+  let v := ex_inv 200 BNormal in
+  map (fun e => (e_site e, e_idx e)) (o_log (invoke_wide 500 ps v)) =
+    [(SM,0);(SM,1);(SS,0);(SS,1);(SR,0);(SR,1);(SR,0);(SR,1)] /\
+  spec_inv ps v (invoke_wide 500 ps v) = false /\
+  spec_inv ps v (invoke_wide 200 ps v) = false /\
+  spec_inv ps v (invoke ps v) = true.
 Proof. vm_compute. repeat split; reflexivity. Qed.
 
 Example documents_nonvacuous :
-  construct [ex_doc; ex_msg false] true [2%N] [1%N; 2%N] =
+  construct [ex_doc None; ex_msg None] true [2%N] [2%N] [1%N; 2%N] =
   ([mkE SL 0 1 (Some []) []; mkE SD 0 1 (Some [(SL,0)]) []; mkE SD 0 2 (Some []) []],
    [(1%N, true); (2%N, false)], COk).
 Proof. vm_compute. reflexivity. Qed.
+
+(* the guard of document_hook_exception_propagates_partial is needed: the WSDL (1) is cached,
+   the imported schema (2) is fetched, its loaded hook raises a TransportError *)
+Example document_hook_exception_refuted :
+  exists ps caching pre xsd urls h,
+    let '(l, os, r) := construct ps caching pre xsd urls in
+    snd (cut (concat (doc_stages ps pre os) ++ init_stage ps pre os)) = Some h /\
+    r <> CHookExc (x_site h) (x_idx h) (x_cls h).
+Proof.
+  exists [ex_doc (Some XTransport)], true, [1%N], [2%N], [1%N; 2%N], (HX SL 0 2 XTransport).
+  vm_compute. split; [reflexivity|discriminate].
+Qed.
+
+(* ... and satisfiable: the same hook raising the same class for the WSDL itself, or any other
+   class for the schema *)
+Example document_hook_exception_nonvacuous :
+  snd (construct [ex_doc (Some XTransport)] true [] [2%N] [1%N; 2%N]) = CHookExc SL 0 XTransport /\
+  snd (construct [ex_doc (Some XValue)] true [1%N] [2%N] [1%N; 2%N]) = CHookExc SL 0 XValue.
+Proof. vm_compute. split; reflexivity. Qed.
